@@ -1,4 +1,4 @@
-CONSTANTS Family = "long" MaxVar = 12 MaxRuns = 3 FramesSet = {1} BpsSet = {1,2} SppSet = {1}
+CONSTANTS Family = "long" MaxVar = 6 MaxRuns = 3 FramesSet = {1} BpsSet = {1,2} SppSet = {1}
 SPECIFICATION Spec
 INVARIANTS Emit
 CHECK_DEADLOCK FALSE
